@@ -147,6 +147,33 @@ func structViewObj(spec *common.Spec, v any) (vw any, has bool, err error) {
 	return out[0].Interface(), true, nil
 }
 
+// overLimitViewFirst: for list types held as Go slices with a small limit, View() is called on a copy grown to
+// limit+1 entries (result ignored, panics recovered). Reports whether such a call was made.
+func overLimitViewFirst(spec *common.Spec, t *refssz.Type, v any) (tried bool) {
+	defer func() { recover() }()
+	if t == nil || t.Kind != refssz.KList || t.N > 4096 {
+		return false
+	}
+	rv := reflect.ValueOf(v)
+	if rv.Kind() != reflect.Ptr || rv.Elem().Kind() != reflect.Slice {
+		return false
+	}
+	src := rv.Elem()
+	grown := reflect.MakeSlice(src.Type(), 0, int(t.N)+1)
+	grown = reflect.AppendSlice(grown, src)
+	for uint64(grown.Len()) <= t.N {
+		if src.Len() > 0 {
+			grown = reflect.Append(grown, src.Index(grown.Len()%src.Len()))
+		} else {
+			grown = reflect.Append(grown, reflect.Zero(src.Type().Elem()))
+		}
+	}
+	cp := reflect.New(src.Type())
+	cp.Elem().Set(grown)
+	structView(spec, cp.Interface())
+	return true
+}
+
 func structView(spec *common.Spec, v any) (root [32]byte, has bool, err error) {
 	m := reflect.ValueOf(v).MethodByName("View")
 	if !m.IsValid() {
@@ -180,6 +207,7 @@ type rootsInfo struct {
 	derived                        int
 	rehashed                       bool
 	aliasChecked                   bool
+	afterRefusedView               bool
 	atLimit, nonEmpty              int
 	nonDef, fixed                  bool
 }
@@ -253,6 +281,11 @@ func runRoots(c *Case) (*report.Failure, *rootsInfo) {
 			return report.Failf(c.Type+"/view/Serialize-differs", "%s view (%s) decoded from B serializes differently: %s", tag, bd.View, refssz.DiffBytes(t, B, vbytes)), info
 		}
 		info.viewChecked = true
+	}
+	// a conversion that has to be refused (a list one entry beyond its limit, built as a struct) comes first
+	// for some values: whatever it does, the conversion of the valid value right after it must be unaffected
+	if len(B)%3 == 0 && overLimitViewFirst(p.Spec, t, o.V) {
+		info.afterRefusedView = true
 	}
 	var sroot [32]byte
 	var hasV bool
@@ -462,7 +495,7 @@ func TestCheck(t *testing.T) {
 	for _, f := range reg.Forks {
 		r.Mandatory("history:" + f)
 	}
-	r.Mandatory("history:copy-then-mutate-both", "history:list-longer-than-one-chunk", "shape:at-limit", "roots:view-form", "roots:struct.View()", "roots:zero-value-struct", "roots:derived-forms(header,shallow-body)", "roots:shallow-body-round-trip")
+	r.Mandatory("roots:struct.View()-right-after-a-refused-conversion", "history:copy-then-mutate-both", "history:list-longer-than-one-chunk", "shape:at-limit", "roots:view-form", "roots:struct.View()", "roots:zero-value-struct", "roots:derived-forms(header,shallow-body)", "roots:shallow-body-round-trip")
 	r.S.Extra["types_with_view_typedef"] = nview
 	r.S.Extra["registered_types"] = len(types)
 
@@ -484,6 +517,10 @@ func TestCheck(t *testing.T) {
 		}
 		if info.rehashed {
 			r.Class("roots:same-object-rehashed-after-overwrite")
+		}
+		if info.afterRefusedView && info.structViewChecked {
+			r.Hit("roots:struct.View()-right-after-a-refused-conversion")
+			r.Class("roots:struct.View()-right-after-a-refused-conversion")
 		}
 		if info.aliasChecked {
 			r.Class("roots:struct.View()-independent-of-the-struct-afterwards")
